@@ -327,6 +327,67 @@ def _run_project(plan: dict, root: str, pdir: str, out: Outcome) -> None:
         out.count('inconclusive:test-timeout')
         out.inconclusive.append({'why': 'meson test watchdog/timeout', 'plan': plan_params(plan), 'tail': tr.out[-400:]})
 
+    # ---- 4b. the same tests again with --repeat N (+ --test-args): EVERY execution gets args + test-args, once
+    trp = plan.get('test_repeat')
+    if trp and not tests_unreliable:
+        os.truncate(log, 0)
+        targv = ['test', '--no-rebuild', '--num-processes', '2', '--repeat', str(trp['repeat'])]
+        if trp['test_args']:
+            # --test-args takes ONE string that meson splits like a POSIX shell: spell it with plain '...' quoting
+            targv.append('--test-args=' + ' '.join("'" + a.replace("'", "'\\''") + "'" for a in trp['test_args']))
+        tr2 = runner.meson(targv, cwd=bdir, env={'C03_DUMP_LOG': log, 'MESON_TESTTHREADS': '2'}, timeout=150)
+        rep_records = read_log(log)
+        mt2 = re.search(r'^Timeout:\s+(\d+)', tr2.out, re.M)
+        if tr2.timed_out or bool(mt2 and int(mt2.group(1)) > 0):
+            out.count('inconclusive:test-timeout')
+            out.inconclusive.append({'why': 'meson test --repeat watchdog/timeout', 'plan': plan_params(plan), 'tail': tr2.out[-400:]})
+        else:
+            rep_by_id: T.Dict[str, T.List[dict]] = {}
+            for rr in rep_records:
+                rep_by_id.setdefault(rr['id'], []).append(rr)
+            for ident, exp in plan['cmd'].items():
+                if exp['kind'] != 'test':
+                    continue
+                want = list(exp['runs'][0]) + list(trp['test_args'])
+                wenv = exp['env'] or {}
+                got = rep_by_id.get(ident, [])
+                out.count('monitor:test_repeat_compared')
+                out.count('monitor:argv_compared', trp['repeat'])
+                out.cases.append(common.digest([exp['pos'], 'test-repeat', trp['repeat'], want]))
+                locus = {'id': ident, 'pos': exp['pos'], 'kind': 'test', 'mode': 'test-repeat', 'repeat': trp['repeat'],
+                         'test_args': trp['test_args']}
+                if len(got) != trp['repeat']:
+                    _violate(out, plan, mechanism('test', 'test-repeat', 'executed-%d-of-%d-times' % (len(got), trp['repeat']), want[1:], []),
+                             dict(locus, expected_argv=want, tail=tr2.out[-600:]))
+                    continue
+                ok_all = True
+                for n_, g in enumerate(sorted(got, key=lambda g_: len(g_['argv']))):
+                    obs = [l1_to_str(a) for a in g['argv']]
+                    if obs != want:
+                        ok_all = False
+                        what = 'arg-count' if len(obs) != len(want) else 'arg-bytes'
+                        special = None
+                        if len(obs) > len(want) and obs[:len(want)] == want:
+                            extra = obs[len(want):]
+                            special = 'args-appended-again' if extra == (want * (len(extra) // max(1, len(want)) + 1))[:len(extra)] \
+                                else 'extra-args'
+                        _violate(out, plan, ('test:test-repeat:' + special) if special else mechanism('test', 'test-repeat', what, want, obs),
+                                 dict(locus, execution=n_ + 1, diff=first_diff(want, obs)))
+                        break
+                    oenv = {k_: l1_to_str(v_) for k_, v_ in g['env'].items()}
+                    if oenv != wenv:
+                        ok_all = False
+                        dk = next(k_ for k_ in sorted(set(wenv) | set(oenv)) if wenv.get(k_) != oenv.get(k_))
+                        _violate(out, plan, mechanism('test', 'test-repeat', 'env-bytes', [wenv.get(dk, '')], [oenv.get(dk, '')]),
+                                 dict(locus, var=dk, expected=wenv.get(dk), observed=oenv.get(dk)))
+                        break
+                if ok_all:
+                    mm_ = out.modes.setdefault(exp['pos'], {})
+                    key_ = 'test-repeat%d%s' % (trp['repeat'], '+test-args' if trp['test_args'] else '')
+                    mm_[key_] = mm_.get(key_, 0) + 1
+                    if trp['test_args']:
+                        out.count('monitor:test_args_compared')
+
     by_out = {}
     for e in m.edges:
         for o in e.outputs:
@@ -783,7 +844,7 @@ def main() -> int:
     if done < len(order):
         chk.count('projects_skipped_time_budget', len(order) - done)
 
-    for k in ('monitor:env_form_string_or_list', 'monitor:env_form_dict_or_set', 'monitor:pickle_collision_group_compared', 'monitor:exe_rsp_file_checked', 'monitor:argv_compared', 'monitor:test_argv_compared', 'monitor:elem_roundtrip', 'monitor:exe_pickle_checked',
+    for k in ('monitor:test_repeat_compared', 'monitor:test_args_compared', 'monitor:env_form_string_or_list', 'monitor:env_form_dict_or_set', 'monitor:pickle_collision_group_compared', 'monitor:exe_rsp_file_checked', 'monitor:argv_compared', 'monitor:test_argv_compared', 'monitor:elem_roundtrip', 'monitor:exe_pickle_checked',
               'monitor:exe_cmdline_checked', 'monitor:rsp_decoded', 'monitor:compile_slot_compared', 'monitor:link_slot_compared',
               'monitor:env_compared', 'monitor:stdin_compared', 'monitor:contract_quote_arg', 'monitor:contract_rsp_quote',
               'monitor:contract_ninja_quote', 'monitor:buildargv_calibrated_agree', 'monitor:literal_calibration',
